@@ -642,6 +642,16 @@ def bi_into(it, fn, args, path, body, blk, depth):
     """`x.into()` is `U::from(x)` (the std blanket impl): evaluated through the crate's own `From<X> for U` impl when the
     argument is a value of a crate ADT X with exactly one such impl for the requested target."""
     v = _peel(args[0]) if args else None
+    if v and v[0] == "choice":
+        out = []
+        for alt in v[2]:
+            p2 = path.fork()
+            p2.assume[v[1]] = _short(alt)
+            r = bi_into(it, fn, [alt] + list(args[1:]), p2, body, blk, depth)
+            if r is None:
+                return None
+            out.extend(r)
+        return out
     if not (v and v[0] == "enum"):
         return None
     want = fn.get("targs") or []
@@ -659,7 +669,26 @@ def bi_into(it, fn, args, path, body, blk, depth):
     return list(it.table(cb, args, depth + 1, path))
 
 
+def bi_discriminant_value(it, fn, args, path, body, blk, depth):
+    """The intrinsic behind the derived PartialEq of a field-less enum."""
+    v = _peel(args[0]) if args else None
+    if v and v[0] == "enum":
+        return [(path, ("i", it.discr_of(v)))]
+    return None
+
+
+def bi_is_some_and(it, fn, args, path, body, blk, depth):
+    v = args[0]
+    if v[0] == "enum" and v[1] == OPTION:
+        if v[2] == "None":
+            return [(path, B(False))]
+        return list(it.call_closure(args[1], [v[3][0]], path, depth))
+    raise Unsupported("is_some_and on %r" % (v,))
+
+
 DEFAULT_BUILTINS = {
+    "name:discriminant_value": bi_discriminant_value,
+    "std::option::Option::<T>::is_some_and": bi_is_some_and,
     "name:into": bi_into,
     "name:eq": bi_eq,
     "name:ne": bi_eq,
